@@ -875,7 +875,8 @@ func jsonTagNames(t reflect.Type, seen map[reflect.Type]bool) []string {
 }
 
 // addKeys: every object of the document extended, one key at a time, by a name of `names` it does not have, with a string, a
-// number, a boolean and null as value (at most 160 documents, spread over the names).
+// number, a boolean and null as value (at most 96 documents: the values rotate over the names pass by pass, so that a prefix
+// still holds every name at every object).
 func addKeys(v any, names []string) []any {
 	var out []any
 	uniq, done := []string{}, map[string]bool{}
@@ -885,6 +886,8 @@ func addKeys(v any, names []string) []any {
 			uniq = append(uniq, n)
 		}
 	}
+	vals := []any{"s", 1.0, true, nil}
+	pass := 0
 	var walk func(cur any, rebuild func(any) any)
 	walk = func(cur any, rebuild func(any) any) {
 		switch c := cur.(type) {
@@ -898,17 +901,15 @@ func addKeys(v any, names []string) []any {
 				})
 			}
 		case map[string]any:
-			for _, name := range uniq {
+			for j, name := range uniq {
 				if _, has := c[name]; has {
 					continue
 				}
-				for _, val := range []any{"s", 1.0, true, nil} {
-					cp := map[string]any{name: val}
-					for kk, vv := range c {
-						cp[kk] = vv
-					}
-					out = append(out, rebuild(cp))
+				cp := map[string]any{name: vals[(j+pass)%len(vals)]}
+				for kk, vv := range c {
+					cp[kk] = vv
 				}
+				out = append(out, rebuild(cp))
 			}
 			for k := range c {
 				k := k
@@ -923,15 +924,11 @@ func addKeys(v any, names []string) []any {
 			}
 		}
 	}
-	walk(v, func(n any) any { return n })
-	if len(out) > 160 {
-		// keep a spread rather than a prefix: every step-th document
-		step := (len(out) + 159) / 160
-		var kept []any
-		for i := 0; i < len(out); i += step {
-			kept = append(kept, out[i])
-		}
-		out = kept
+	for pass = 0; pass < len(vals) && len(out) < 96; pass++ {
+		walk(v, func(n any) any { return n })
+	}
+	if len(out) > 96 {
+		out = out[:96]
 	}
 	return out
 }
